@@ -15,11 +15,21 @@ CHECKS = {
   text="Every expression (to a node budget) of an alphabet in which each optimizer rewrite can fire - constant arithmetic at any depth, literal arrays, in/not in over literal arrays and ranges with left operands of every static type (int kinds, floats, strings, nil, dynamic), constant ranges, const-expr calls with literal/folded/nested arguments - placed under calls with sized/float/interface parameters, conditionals and closures, is compiled optimized and unoptimized in struct/map/no-env modes and run on every value: both fail or both return equal values; the optimizer may reject only a constant integer division by zero; a ConstExpr mark may only move that call's failure to compile time.",
   note="Trusted: result normal form (kind-exact numbers, element-wise sequences); no expected values are needed. Bounded by node budget and value domains.",
   ref="DESIGN.md section 4 C02"),
+ "C05": dict(
+  technique="explicit-state exploration of all paths of every emitted program through an abstract stack machine (states = ip x abstract stack x scope stack; branch outcomes and collection lengths as nondeterministic environment answers), static decoding, and conformance replay of single-stepped runs of the real VM against the model's transition table",
+  text="Every program compiled from six slice grammars (optimized and not, struct/map/no-env) is decoded by an independent decoder (known opcodes, operands present, constant indices in range and of the expected kind, jump targets on instruction boundaries or at the end), then ALL its paths are explored in an abstract machine whose invariants are: no pop of an empty stack, scope operations only inside Begin..End, exactly one value and no open scope at the end. The model is bound to the code by single-stepping every program on every environment value through vm.Debug() and checking each observed (ip, depth, scopes) step against the per-opcode table. Boundary families sweep branch bodies around 2^16 bytes for every jump-emitting scheme and constant pools around 2^16 entries.",
+  note="Trusted: the per-opcode effect table mc/bc (transcribed from vm/vm.go, symbolic opcodes only); lengths {0,1,2} as environment answers; 300000-state cap per program (reported).",
+  ref="DESIGN.md section 4 C05, Appendix A"),
  "C06": dict(
   technique="exhaustive enumeration of allocating expressions x run-time bounds x budgets 1..12 on the real VM, oracle = reference allocation count (succeeds iff need < budget), plus a boundary family at the default budget",
   text="All expressions of the allocating slice (array/map literals with non-constant elements, run-time ranges ascending/equal/descending, map/filter results, nestings, intermediate collections) up to a node budget, for every value of the bounds and every budget 1..12 (barrier between budgets since vm.MemoryBudget is global), optimized/unoptimized/no-env: the run must succeed exactly when the reference evaluator's allocation count is below the budget. The existing test has one expression and one budget.",
   note="Trusted: reference allocation count (sum of lengths of created collections); budgets 1..12 and the default.",
   ref="DESIGN.md section 4 C06"),
+ "C10": dict(
+  technique="exhaustive enumeration of syntax trees built from the ast types (every node kind in every child slot of every node kind, to a depth bound) with a reflection-derived reference traversal, every position replaced by a visitor, plus end-to-end one-hole contexts compiled with a Patch visitor",
+  text="For every tree: ast.Walk must produce exactly the Enter/Exit sequence computed by reflection over the ast.Node and []ast.Node fields in declaration order (each node once, parents around children, children in source order); for every position, a visitor replacing that node on Exit and on Enter must leave the replacement in that slot and (on Enter) have its children walked. End to end, every one-hole context C[41] of a hole grammar (under slices, indexes, closures, arguments, map keys/values, branches, ranges) compiled with a Patch visitor rewriting 41 to 42 must evaluate like C[42] in three modes.",
+  note="Trusted: reflection over the node struct fields as the definition of 'children in source order'.",
+  ref="DESIGN.md section 4 C10"),
  "C14": dict(
   technique="fully exhaustive enumeration of 12x12 kind pairs x 12 operators (+ unary minus) x boundary-value grids on the real Compile/Run against an independent bit-level arithmetic model",
   text="All ordered pairs of the 12 numeric kinds, all arithmetic/comparison operators, unary minus and **, on the full product of a per-kind boundary grid (0, +-1, extrema, truncating and sign-changing bit patterns, floats not representable in float32), typed and untyped: result kind and bits must equal the promotion model (convert lower-ranked operand, wrap to result width, truncating division, division by zero fails) and the kind must be the one checker.Check predicts. One transposed conversion among ~1500 generated cases is caught; TestExpr samples a handful.",
